@@ -62,6 +62,11 @@ fn scenarios(tier: Tier) -> Vec<(Program, usize)> {
             s.raw_metadata = Some(vec![1, 2, 3]);
             s.algo = algo;
             s.chunks = vec![5];
+            // an explicit timestamp: retrying the interrupted call after restart writes the
+            // byte-identical record
+            if blob == 0 {
+                s.time = Some("424242424242".into());
+            }
         }
         Op::Write(s)
     };
@@ -99,10 +104,17 @@ fn scenarios(tier: Tier) -> Vec<(Program, usize)> {
                     Op::RemoveOpts { key: 0, fully: false }
                 }
             };
-            steps.push(Step { op: victim_op, fl });
+            steps.push(Step { op: victim_op.clone(), fl });
             let victim = steps.len() - 1;
-            steps.extend(cont(n));
-            out.push((Program { keys: keys.clone(), blobs: blobs.clone(), steps }, victim));
+            let mut with_cont = steps.clone();
+            with_cont.extend(cont(n));
+            out.push((Program { keys: keys.clone(), blobs: blobs.clone(), steps: with_cont }, victim));
+            // after restart the application simply retries the interrupted call (both flavours)
+            let mut retry = steps.clone();
+            retry.push(Step { op: victim_op.clone(), fl });
+            retry.push(Step { op: Op::Meta { key: 0 }, fl: Fl::Async });
+            retry.push(Step { op: victim_op, fl: if fl == Fl::Sync { Fl::Async } else { Fl::Sync } });
+            out.push((Program { keys: keys.clone(), blobs: blobs.clone(), steps: retry }, victim));
         }
     }
     out
@@ -135,7 +147,12 @@ fn random_case() -> impl Strategy<Value = Case> {
             };
             let mut steps: Vec<Step> = pre.into_iter().map(|x| mk(x, false)).collect();
             let victim = steps.len();
+            let retry = vic.2 % 3 == 0;
             steps.push(mk(vic, false));
+            if retry {
+                let v = steps[victim].clone();
+                steps.push(v);
+            }
             steps.extend(cont.into_iter().map(|x| mk(x, true)));
             Case { prog: Program { keys, blobs, steps }, victim, crash }
         })
